@@ -48,7 +48,7 @@ def ConnSt.isLive : ConnSt → Bool
 
 inductive Pc
   | connDelay (due : Nat) | connStart | connOpening
-  | drainAwait (e : Entry) (r : Ret)
+  | drainAwait (w : Nat) (e : Entry) (r : Ret)
   | discWait (w : Nat) (r : Ret)
   | notifyWait (r : Ret)
   | readStart | readWait (c : Nat)
@@ -130,7 +130,7 @@ def exec : Nat → Core → List Pc → Kont → Out
     | some w =>
       match drainLoop c w c.queue with
       | (c', .empty) => exec fuel c' sp (.ret r)
-      | (c', .suspended e) => ⟨c', .drainAwait e r, sp⟩
+      | (c', .suspended e) => ⟨c', .drainAwait w e r, sp⟩
       | (c', .raised e) => exec fuel (requeue c' e) sp (.disconnect (.resetTail r))
   | fuel+1, c, sp, .disconnect r =>
     match c.rw with
@@ -285,9 +285,11 @@ def step (s : Sys) : Label → Option Sys
       some (upd s t ⟨c, .finished,
         if !c.isConnected && c.isOpen then [.connDelay (c.now + RETRY_DELAY)] else []⟩)
     | some .cancelledOpening, .go => some (upd s t ⟨{ s.core with connecting := false }, .finished, []⟩)
-    | some (.drainAwait _ r), .drainOk => some (upd s t (exec FUEL s.core [] (.drain r)))
-    | some (.drainAwait e r), .drainErr =>
-      some (upd s t (exec FUEL (requeue s.core e) [] (.disconnect (.resetTail r))))
+    | some (.drainAwait _ _ r), .drainOk => some (upd s t (exec FUEL s.core [] (.drain r)))
+    | some (.drainAwait w e r), .drainErr =>
+      -- `drain()` only raises on a transport that is closing or lost
+      if (s.core.conns[w]?.map ConnSt.isLive).getD false then none
+      else some (upd s t (exec FUEL (requeue s.core e) [] (.disconnect (.resetTail r))))
     | some (.discWait w r), .go =>
       match s.core.conns[w]? with
       | some (.dead _) => some (upd s t (exec FUEL s.core [] (.discTail (some w) r)))
